@@ -15,7 +15,11 @@ EXPLANATION = ("T1 path-sensitive extraction of LdapResultExt::from: on every su
 TRUSTED = ['String::from_utf8 / Vec move semantics', 'lber parse (C07 reader clauses)']
 UNDECIDED = ['byte-level equality of arbitrary strings (std semantics)', 'BER length-form independence (C07 reader clause)']
 ASSUMPTIONS = []
-SHARED = [('C01', ('R3.controls', 'R3.protocol-op'), 'T6.driver-forwards-the-message'), ('C16', ('A2.no-paging-control', 'A2.last-page-strips-control'), 'T5.paged-result-controls')]      # the one place a response control list is edited before the caller sees it: exactly the paging control may go
+SHARED = [('C01', ('R3.controls', 'R3.protocol-op'), 'T6.driver-forwards-the-message'), ('C16', ('A2.no-paging-control', 'A2.last-page-strips-control'), 'T5.paged-result-controls'),
+          # "the referral list handed to the caller equals what the server encoded": the one place a decoded referral list is edited
+          # before the caller sees it is EntriesOnly::finish (Ldap::search), which may only append the URIs of the reference messages to
+          # the list decoded from the SearchResultDone - on every path
+          ('C10', ('Q4.entries-only.finish-merges-refs',), 'T7.search-result-referrals-kept')]      # the one place a response control list is edited before the caller sees it: exactly the paging control may go
 
 RFC4511_RESULT_TAGS = {3: 'refs', 7: 'sasl_creds', 10: 'exop_name', 11: 'exop_val'}
 RFC_CONTROL_OIDS = {
